@@ -226,6 +226,22 @@ func genPrec(stream string, seed uint64, nTrees int, triples bool) []GenCase {
 		add("return a"+opText(o)+"b ? 1 : 2;", "terc-"+o, "plain", "ternary-cond")
 		add("return ((a"+opText(o)+"b) ? 1 : 2);", "terc-"+o, "full", "ternary-cond")
 	}
+	// the ternary binds looser than everything in all three positions, whatever an operand starts with:
+	// condition, true arm and else arm beginning with an atom, a prefix operator, a parenthesis, an array
+	// literal, an index or a call, followed by every binary operator
+	for si, st := range []string{"a", "-a", "!a", "√a", "(a)", "[a, b][0]", "xs[0]", "f(a)", "-(a)", "(a)[0]", "-xs[1]"} {
+		for _, o := range precInfixOps {
+			k := fmt.Sprintf("tern3-%d-%s", si, o)
+			add("return "+st+opText(o)+"b ? 1 : 2;", k+"-c", "plain", "ternary-cond-start")
+			add("return ((("+st+")"+opText(o)+"b) ? 1 : 2);", k+"-c", "full", "ternary-cond-start")
+			add("return Flag ? "+st+opText(o)+"b : c;", k+"-t", "plain", "ternary-true-start")
+			add("return (Flag ? (("+st+")"+opText(o)+"b) : c);", k+"-t", "full", "ternary-true-start")
+			add("return Flag ? c : "+st+opText(o)+"b;", k+"-e", "plain", "ternary-else-start")
+			add("return (Flag ? c : (("+st+")"+opText(o)+"b));", k+"-e", "full", "ternary-else-start")
+			add("return !Flag ? c : "+st+opText(o)+"b;", k+"-e2", "plain", "ternary-else-start")
+			add("return ((!Flag) ? c : (("+st+")"+opText(o)+"b));", k+"-e2", "full", "ternary-else-start")
+		}
+	}
 	for _, s := range []string{"x++;", "x--;", "x = 1; x++; return x;", "a += b * c; return a;", "a -= b - c; return a;", "a *= b + c; return a;", "a /= c + 1; return a;",
 		"return a ? b ? 1 : 2 : 3;", "return a ? 1 : b ? 2 : 3;", "return (a ? 1 : 2) ? 3 : 4;", "return a ? (b ? 1 : 2) : 3;", "return f(a ? 1 : 2);",
 		"return a.b;", "return a.b.c;", "return h.k + 1;", "return -a ** 2;", "return 2 ** 3 ** 2;", "return 2 ** -1;", "return a - -b;", "return !a == b;", "return !(a == b);",
@@ -369,6 +385,19 @@ func genInvalid(stream string, seed uint64, nTrunc int, depthMax int) []GenCase 
 				continue
 			}
 			add(ctx2.pre+ctx.pre+"local zz;"+ctx.post+ctx2.post, true, "local-outside-function")
+		}
+	}
+	// ... and the parser must not stay "inside a function" (or "inside a ternary") once one is over: the
+	// same after complete function definitions and ternaries, at top level and inside later blocks
+	for _, before := range []string{"function g1() { return 1; } ", "function g1(p) { local q; q = p; return q; } function g2() { } ", "x = true ? 1 : 2; ",
+		"function g1() { x = true ? 1 : 2; return x; } ", "if (true) { function g3() { return 1; } } "} {
+		for _, ctx := range validContexts {
+			if ctx.name == "function-body" || ctx.name == "before-valid" {
+				continue
+			}
+			add(before+ctx.pre+"local zz;"+ctx.post, true, "local-after-function")
+			add(before+ctx.pre+"y = a ? b ? 1 : 2 : 3;"+ctx.post, true, "nested-ternary-after-ternary")
+			add(before+ctx.pre+"y = a ? 1 : 2;"+ctx.post, false, "valid-context")
 		}
 	}
 	add("function ff(p) { local zz; zz = 1; return zz; } return ff(1);", false, "valid-context")
@@ -692,6 +721,24 @@ func genFuzz(stream string, seed uint64, n int) []GenCase {
 		c := Case{ID: fmt.Sprintf("%s-%d", stream, id), Script: "function r(n) { return r(n + 1); } if (Flag) { return r(0); } return 7;", Opt: true, Tags: []string{"unbounded-recursion"},
 			Fns: []HostFn{recFn()}, Runs: []Run{{Obj: HV{Kind: "struct", Fields: []HField{{"Flag", true, HV{Kind: "bool", B: true}}}}, Polls: 190000},
 				{Obj: HV{Kind: "struct", Fields: []HField{{"Flag", true, HV{Kind: "bool", B: false}}}}, Polls: 5000}}}
+		id++
+		out = append(out, GenCase{Case: c, Stream: stream, NonTrivial: true})
+	}
+	// ... also when the next run calls functions itself, and when the failures happen deep inside nested calls
+	// (an error, a panic, a nil from a host function, a time-out at depth): whatever was in progress is forgotten
+	for _, script := range []string{
+		"function r(n) { return r(n + 1); } function ok(a) { return a + 1; } if (Flag) { return r(0); } return ok(6);",
+		"function d(n) { if (n > 9000) { return 1 / 0; } return d(n + 1); } function ok(a) { return a + 1; } if (Flag) { return d(0); } return ok(ok(5));",
+		"function d(n) { if (n > 6000) { return hpanic(); } return d(n + 1); } function ok(a) { return a + 1; } if (Flag) { return d(0); } return ok(ok(5));",
+		"function d(n) { if (n > 6000) { return hnil(); } return d(n + 1); } function ok(a) { return a + 1; } if (Flag) { return d(0); } return ok(ok(5));",
+		"function d(n) { if (n > 7000) { while (true) { } } return d(n + 1); } function ok(a) { return a + 1; } if (Flag) { return d(0); } return ok(ok(5));",
+		"function d(n) { if (n > 6000) { panic(\"deep\"); } return d(n + 1); } function ok(a) { return a + 1; } if (Flag) { return d(0); } return ok(ok(5));",
+	} {
+		on := HV{Kind: "struct", Fields: []HField{{"Flag", true, HV{Kind: "bool", B: true}}}}
+		off := HV{Kind: "struct", Fields: []HField{{"Flag", true, HV{Kind: "bool", B: false}}}}
+		c := Case{ID: fmt.Sprintf("%s-%d", stream, id), Script: script, Opt: id%2 == 0, Tags: []string{"failure-at-depth-then-reuse"},
+			Fns: []HostFn{recFn(), {Name: "hnil", Kind: "nil"}, {Name: "hpanic", Kind: "panic"}},
+			Runs: []Run{{Obj: on, Polls: 190000}, {Obj: off, Polls: 5000}, {Obj: on, Polls: 190000}, {Obj: on, Polls: 190000}, {Obj: off, Polls: 5000}}}
 		id++
 		out = append(out, GenCase{Case: c, Stream: stream, NonTrivial: true})
 	}
